@@ -536,6 +536,9 @@ func (ex *Exec) conv(dst, src types.Type, x Value) Value {
 				if v.Arr != nil && v.Arr.StrSrc != nil && v.Arr.E == nil && v.Off == 0 {
 					return v.Arr.StrSrc
 				}
+				if v.Arr != nil && v.Arr.Enc != nil {
+					return "<json>" // the text of an encoding is never the subject
+				}
 				if sl, ok := us.(*types.Slice); ok {
 					if basicOf(sl.Elem()).Kind() == types.Byte {
 						b := make([]byte, v.Len)
@@ -602,6 +605,9 @@ func (ex *Exec) callBuiltin(b *ssa.Builtin, args []Value, site ssa.CallInstructi
 			return strLenValue(x)
 		case Slice:
 			if x.Len < 0 {
+				if x.Arr.Enc != nil {
+					return int64(6) // len("<json>")
+				}
 				return strLenValue(x.Arr.StrSrc.(*SymStr))
 			}
 			return int64(x.Len)
